@@ -134,10 +134,14 @@ def _basis(n):
     return _BASIS[n]
 
 
-def index_forms(n, sub, seedsel):
+def index_forms(n, sub, seedsel, given='D'):
     """Equivalent ways of naming an ordered index subset."""
     forms = [('int64', np.array(sub, dtype=np.int64))]
     forms.append(('int32', np.array(sub, dtype=np.int32)))
+    if given == 'D':
+        # the constrained SET named with a repeated index (e.g. the concatenation of the DOFs of two boundary parts that
+        # share a corner); a repeated index in the kept set would ask for a singular system and is not a legal input
+        forms.append(('int64-repeated', np.array(list(sub) + [sub[0]], dtype=np.int64)))
     if tuple(sorted(sub)) == tuple(sub):
         b = _basis(n)
         forms.append(('DofsView', b.get_dofs(np.array(sub, dtype=np.int32))))
@@ -214,7 +218,7 @@ def run_case(out, n, plabel, variant, A0, Ad, stored, sub, given, seed):
         out.violation(f"C05|{op}|{what}|{feat}", f"{msg} (n={n} pattern={plabel} variant={variant} {given}={list(sub)} "
                       f"form={form})", case=c)
 
-    forms = index_forms(n, sub, seed)
+    forms = index_forms(n, sub, seed, given)
     for fname, ix in forms:
         kw = {given: ix}
         A = A0.copy()
